@@ -81,6 +81,9 @@ func c04Flavors() []c04Flavor {
 		{"tel-urn-udp", "udp", "svc.example.com, urn:service:sos", "urn:service:sos",
 			func(d int) string { return fmt.Sprintf("<tel:+1555000%d>", d) }, func(d int) string { return "<urn:service:sos>" },
 			func(d int) string { return fmt.Sprintf("f%d", d) }, func(d int) string { return fmt.Sprintf("t%d", d) }, func(d int) string { return fmt.Sprintf("sos%d", d) }},
+		{"case-variant-uris-udp", "udp", "svc.example.com", "sip:helpdesk@svc.example.com",
+			func(d int) string { return "<sip:Helpdesk@SVC.Example.COM>" }, func(d int) string { return "<sip:helpdesk@svc.example.com>" },
+			func(d int) string { return fmt.Sprintf("f%d", d) }, func(d int) string { return fmt.Sprintf("t%d", d) }, func(d int) string { return fmt.Sprintf("case%d@ua", d) }},
 		{"plain-tcp", "tcp", "svc.example.com", "sip:bob@svc.example.com",
 			func(d int) string { return fmt.Sprintf("<sip:alice%d@ua.example.net>", d) }, func(d int) string { return "<sip:bob@svc.example.com>" },
 			func(d int) string { return fmt.Sprintf("f%d", d) }, func(d int) string { return fmt.Sprintf("t%d", d) }, func(d int) string { return fmt.Sprintf("call%d@ua", d) }},
@@ -346,7 +349,7 @@ func c04Run(c *Ctx) {
 
 func init() {
 	addCheck(&Check{ID: "C04", Level: "model_checking",
-		Rule:   "explicit-state BFS by replay over histories (depth 6, thorough 8) of two INVITE dialogs plus one backend-issued SUBSCRIBE dialog over three backends: events {unrelated OPTIONS, initial INVITE d, 180(with Expires)/200/486 with to-tag from the chosen backend's configured address, in-dialog ACK/BYE/INFO/UPDATE/re-INVITE/NOTIFY/refresh SUBSCRIBE/PRACK in both directions (From/To swapped) and OPTIONS/MESSAGE/REFER/PUBLISH/an extension method in one direction per dialog, SUBSCRIBE issued by a backend, its 200 from the peer, NOTIFY / refresh SUBSCRIBE of that dialog}; four identifier flavours (plain, tags with '-' and equal From/To URIs with decorations, tel:/urn: parties, TCP backends); state = reference pins + per-dialog progress + dialog table (dialog entries) + rotation cursor; non-trivial = history longer than two events",
+		Rule:   "explicit-state BFS by replay over histories (depth 6, thorough 8) of two INVITE dialogs plus one backend-issued SUBSCRIBE dialog over three backends: events {unrelated OPTIONS, initial INVITE d, 180(with Expires)/200/486 with to-tag from the chosen backend's configured address, in-dialog ACK/BYE/INFO/UPDATE/re-INVITE/NOTIFY/refresh SUBSCRIBE/PRACK in both directions (From/To swapped) and OPTIONS/MESSAGE/REFER/PUBLISH/an extension method in one direction per dialog, SUBSCRIBE issued by a backend, its 200 from the peer, NOTIFY / refresh SUBSCRIBE of that dialog}; five identifier flavours (plain, tags with '-' and equal From/To URIs with decorations, tel:/urn: parties, From/To URIs that differ only in letter case, TCP backends); state = reference pins + per-dialog progress + dialog table (dialog entries) + rotation cursor; non-trivial = history longer than two events",
 		Assume: []string{"no clock steps and no BYE answers / terminated NOTIFYs (C15 owns lifetime and early termination)", "client-transaction entries of the pin table are left out of the state key: they are consulted only for responses from unknown source addresses, which this alphabet does not produce"},
 		Run:    c04Run, Collapse: false,
 		Finalize: func(c *Ctx, m *Result) {
